@@ -170,6 +170,40 @@ def clone(m):
     return with_children((t,) + tuple(m[1:]), [clone(c) for c in children(m)])
 
 
+POWER_BUDGET = 4096
+
+
+def cap_powers(m, budget=POWER_BUDGET):
+    """Keeps the product of NthPower exponents along every root-to-leaf path <= budget by turning excess exponents
+    into 1.  Without it the simplifier's own rule NthPower(NthPower(u, m), n) => NthPower(u, m*n) can manufacture an
+    astronomically large integer exponent, and constant folding of an *int* leaf then asks CPython for an exact
+    integer with 10^20 digits (minutes of CPU, gigabytes) - an intermediate far outside the double range, which
+    every property excludes."""
+    memo = {}
+
+    def go(x, b):
+        k = (id(x), b)
+        if k in memo:
+            return memo[k]
+        t = x[0]
+        if t in LEAVES:
+            r = x
+        elif t == "NthPower":
+            n = int(x[2])
+            if n > b:
+                r = (t, go(x[1], b), 1)
+            else:
+                c = go(x[1], max(1, b // max(n, 1)))
+                r = x if c is x[1] else (t, c, x[2])
+        else:
+            cs = children(x)
+            new = [go(c, b) for c in cs]
+            r = x if all(a is c for a, c in zip(new, cs)) else with_children(x, new)
+        memo[k] = r
+        return r
+    return go(m, budget)
+
+
 def _canon_num(v):
     """Numeric parameters/values normalised so 2 and 2.0 coincide (as == does)."""
     if isinstance(v, bool):
